@@ -16,24 +16,27 @@ static Grp pick_grp(Ctx &ctx) {
   auto l = split_lines(vtmf_group_text(gs.kind, gs.fsize, gs.gsize, gs.idx)); r.p = zparse62(l[0]); r.q = zparse62(l[1]); r.g = zparse62(l[2]); r.F = gs.fsize; r.G = gs.gsize;
   r.h = zpowm(r.g, zrand_below(ctx, r.q - 2) + 2, r.p); return r;
 }
-enum FaultKind { F_NONE = 0, F_SILENT, F_LIBSWITCH, F_WRONG_SHARE, F_DROP_AFTER, F_FALSE_COMPLAINT };
-struct Faults { std::vector<int> kind; std::vector<size_t> arg; std::vector<std::vector<bool> > victim; std::string desc; size_t count = 0; };
+enum FaultKind { F_NONE = 0, F_SILENT, F_LIBSWITCH, F_WRONG_SHARE, F_DROP_AFTER, F_FALSE_COMPLAINT, F_BAD_BROADCAST };
+struct Faults { std::vector<int> kind; std::vector<size_t> arg, arg2; std::vector<std::vector<bool> > victim; std::string desc; size_t count = 0; Z p; };
 // wrong-share: the faulty party follows the protocol, but the network tap adds 1 to its arg-th private value towards each party of a
 // generated victim set of 1..t+1 others (so the number of complaints lands below, at and above the disqualification threshold t, with
 // honest complainers and honest non-complainers side by side)
 static Faults pick_faults(Ctx &ctx, size_t n, size_t maxf, size_t t = 1) {
-  Faults f; f.kind.assign(n, F_NONE); f.arg.assign(n, 0); f.victim.assign(n, std::vector<bool>(n, false)); size_t k = maxf ? (size_t)ctx.c.range(1, maxf) : 0;
+  Faults f; f.kind.assign(n, F_NONE); f.arg.assign(n, 0); f.arg2.assign(n, 0); f.victim.assign(n, std::vector<bool>(n, false)); size_t k = maxf ? (size_t)ctx.c.range(1, maxf) : 0;
   std::vector<size_t> idx(n); for (size_t i = 0; i < n; i++) idx[i] = i;
   for (size_t i = 0; i < k; i++) { size_t j = i + ctx.c.index(n - i); std::swap(idx[i], idx[j]); size_t who = idx[i];
-    f.kind[who] = 1 + (int)ctx.c.weighted({2, 3, 4, 0, 2}); // partial silence (drop-after) is not generated: cascaded time-outs at the parties that were still served
+    f.kind[who] = 1 + (int)ctx.c.weighted({2, 3, 4, 0, 2, 3}); // partial silence (drop-after) is not generated: cascaded time-outs at the parties that were still served
     // desynchronise the honest parties, which is outside the synchrony assumption of the property (DESIGN.md, observation O6)
-    static const char *nm[] = {"", "silent", "library-switch", "wrong-share", "drop-after", "false-complaint"}; f.desc += " P" + std::to_string(who) + ":" + nm[f.kind[who]];
+    static const char *nm[] = {"", "silent", "library-switch", "wrong-share", "drop-after", "false-complaint", "malformed-broadcast"}; f.desc += " P" + std::to_string(who) + ":" + nm[f.kind[who]];
     if (f.kind[who] == F_WRONG_SHARE) { f.arg[who] = ctx.c.weighted({5, 2, 1, 1}); size_t nv = 1 + ctx.c.weighted({3, 3, 1}) % (t + 1); if (nv > n - 1) nv = n - 1;
       std::vector<size_t> others; for (size_t x = 0; x < n; x++) if (x != who) others.push_back(x);
       f.desc += "(value#" + std::to_string(f.arg[who]) + "->"; for (size_t v = 0; v < nv; v++) { size_t z = v + ctx.c.index(others.size() - v); std::swap(others[v], others[z]); f.victim[who][others[v]] = true; f.desc += "P" + std::to_string(others[v]); } f.desc += ")"; }
     // false complaint: the party follows the protocol, but the first end marker (the value n) it broadcasts is turned into the index of
     // another party, i.e. into a complaint against a dealer that served it correctly (its real end marker is then missing)
     if (f.kind[who] == F_FALSE_COMPLAINT) { f.arg[who] = (who + 1 + ctx.c.index(n - 1)) % n; f.desc += "(against P" + std::to_string(f.arg[who]) + ")"; }
+    // malformed broadcast: the party follows the protocol, but the payload of its k-th reliable broadcast (a commitment, a public key share, a
+    // published share) is replaced for ALL recipients alike by a degenerate or out-of-range value: 0, 1, p-1, v+p, p-v, v+1
+    if (f.kind[who] == F_BAD_BROADCAST) { f.arg[who] = ctx.c.weighted({4, 3, 2, 2, 1, 1, 1, 1}); f.arg2[who] = ctx.c.index(6); static const char *mn[] = {"0", "1", "p-1", "v+p", "p-v", "v+1"}; f.desc += "(broadcast#" + std::to_string(f.arg[who]) + ":=" + mn[f.arg2[who]] + ")"; }
     f.count++; }
   return f;
 }
@@ -43,10 +46,16 @@ static void install_tap(Cluster &cl, const Faults &f) {
     if (f.kind[from] == F_DROP_AFTER) { unsigned long tot = 0; for (size_t x = 0; x < cl.n; x++) tot += cl.uni.count[from][x]; if (tot > f.arg[from] * 3) return 1; }
     return 0; };
   auto lastact = std::make_shared<std::vector<std::vector<long> > >(cl.n, std::vector<long>(cl.n, 0)); auto done = std::make_shared<std::vector<std::vector<bool> > >(cl.n, std::vector<bool>(cl.n, false));
-  cl.bc.tap = [&cl, f, lastact, done](size_t from, size_t to, unsigned long idx, detsim::Z &v) -> int {
+  auto lastsnd = std::make_shared<std::vector<std::vector<long> > >(cl.n, std::vector<long>(cl.n, -1)); auto nsend = std::make_shared<std::vector<std::vector<size_t> > >(cl.n, std::vector<size_t>(cl.n, 0));
+  cl.bc.tap = [&cl, f, lastact, done, lastsnd, nsend](size_t from, size_t to, unsigned long idx, detsim::Z &v) -> int {
     if (f.kind[from] == F_FALSE_COMPLAINT) { // the broadcast layer sends 5-tuples (channel, sender, sequence number, action, payload); action 1 = r-send
       if (idx % 5 == 3) (*lastact)[from][to] = v.fits_slong_p() ? v.get_si() : -1;
       else if (idx % 5 == 4 && (*lastact)[from][to] == 1 && !(*done)[from][to] && v == detsim::Z((unsigned long)cl.n)) { v = detsim::Z((unsigned long)f.arg[from]); (*done)[from][to] = true; } }
+    if (f.kind[from] == F_BAD_BROADCAST) { // the r-send tuples (action 1) of the faulty sender itself carry its own broadcasts (sender field = from)
+      if (idx % 5 == 1) (*lastsnd)[from][to] = v.fits_slong_p() ? v.get_si() : -1;
+      if (idx % 5 == 3) (*lastact)[from][to] = v.fits_slong_p() ? v.get_si() : -1;
+      else if (idx % 5 == 4 && (*lastact)[from][to] == 1 && (*lastsnd)[from][to] == (long)from) { size_t k = (*nsend)[from][to]++;
+        if (k == f.arg[from]) { const detsim::Z &P = f.p; switch (f.arg2[from]) { case 0: v = 0; break; case 1: v = 1; break; case 2: v = P - 1; break; case 3: v = v + P; break; case 4: v = P - v; break; default: v = v + 1; } } } }
     if (f.kind[from] == F_DROP_AFTER) { unsigned long tot = 0; for (size_t x = 0; x < cl.n; x++) tot += cl.bc.count[from][x]; if (tot > (f.arg[from] + 2) * 40) return 1; }
     return 0; };
 }
@@ -67,7 +76,7 @@ static void judge_shares(Ctx &ctx, const std::string &proto, const Grp &G, size_
 VF_SUB(gjkr_dkg, 110, 2500) {
   Grp G = pick_grp(ctx); size_t n = (size_t)ctx.c.range(4, ctx.thorough ? 7 : 6);
   bool with_faults = ctx.c.prob(3, 5) && n >= 4; size_t tmax = (n - 1) / 3, t = (size_t)ctx.c.range(1, tmax); // the broadcast layer needs n > 3t // t = 0 is degenerate (a share is the secret; the classes use 0 as "no share")
-  Faults F = with_faults ? pick_faults(ctx, n, t, t) : pick_faults(ctx, n, 0);
+  Faults F = with_faults ? pick_faults(ctx, n, t, t) : pick_faults(ctx, n, 0); F.p = G.p;
   std::vector<bool> present(n, true); for (size_t i = 0; i < n; i++) if (F.kind[i] == F_SILENT) present[i] = false;
   Cluster cl(n, t, present); install_tap(cl, F);
   std::vector<GennaroJareckiKrawczykRabinDKG *> dkg(n, nullptr); std::vector<bool> ret(n, false);
@@ -75,7 +84,7 @@ VF_SUB(gjkr_dkg, 110, 2500) {
   bool simok = cl.run(ctx, [&](PartyEnv &e) {
     dkg[e.i] = new GennaroJareckiKrawczykRabinDKG(n, t, e.i, G.p.get_mpz_t(), G.q.get_mpz_t(), G.g.get_mpz_t(), G.h.get_mpz_t(), G.F, G.G, true, false, "c15");
     e.rbc->setID("c15-gjkr-dkg"); ret[e.i] = dkg[e.i]->Generate(e.aiou, e.rbc, e.err, F.kind[e.i] == F_LIBSWITCH); e.rbc->unsetID(); });
-  ctx.desc << d.str() << " vtime=" << vf::vnow << " msgs=" << cl.uni.sent + cl.bc.sent; ctx.label("n=" + std::to_string(n)); ctx.label(F.count ? "with-faults" : "fault-free"); for (size_t z = 0; z < n; z++) if (F.kind[z]) ctx.label(std::string("fault:") + (F.kind[z] == F_SILENT ? "silent" : F.kind[z] == F_LIBSWITCH ? "library-switch" : F.kind[z] == F_FALSE_COMPLAINT ? "false-complaint" : "wrong-share"));
+  ctx.desc << d.str() << " vtime=" << vf::vnow << " msgs=" << cl.uni.sent + cl.bc.sent; ctx.label("n=" + std::to_string(n)); ctx.label(F.count ? "with-faults" : "fault-free"); for (size_t z = 0; z < n; z++) if (F.kind[z]) ctx.label(std::string("fault:") + (F.kind[z] == F_SILENT ? "silent" : F.kind[z] == F_LIBSWITCH ? "library-switch" : F.kind[z] == F_FALSE_COMPLAINT ? "false-complaint" : F.kind[z] == F_BAD_BROADCAST ? "malformed-broadcast" : "wrong-share"));
   if (F.count >= 1 || n >= 4) ctx.nontrivial(d.str() + std::to_string(cl.bc.sent));
   if (!simok) ctx.fail("sharing/gjkr_dkg/simulation-deadlock-or-time-budget", d.str() + cl.task_errors());
   std::vector<size_t> H; for (size_t i = 0; i < n; i++) if (honest(F, i)) H.push_back(i);
@@ -96,7 +105,7 @@ VF_SUB(gjkr_dkg, 110, 2500) {
 VF_SUB(pedersen_vss, 90, 2000) {
   Grp G = pick_grp(ctx); size_t n = (size_t)ctx.c.range(4, 6);
   bool with_faults = ctx.c.prob(3, 5) && n >= 4; size_t tmax = (n - 1) / 3, t = (size_t)ctx.c.range(1, tmax); // the broadcast layer needs n > 3t
-  Faults F = with_faults ? pick_faults(ctx, n, t, t) : pick_faults(ctx, n, 0);
+  Faults F = with_faults ? pick_faults(ctx, n, t, t) : pick_faults(ctx, n, 0); F.p = G.p;
   size_t dealer = ctx.c.index(n); Z sigma = ctx.c.prob(1, 4) ? Z((unsigned long)ctx.c.index(3)) : zrand_below(ctx, G.q);
   std::vector<bool> present(n, true); for (size_t i = 0; i < n; i++) if (F.kind[i] == F_SILENT) present[i] = false;
   Cluster cl(n, t, present); install_tap(cl, F);
@@ -108,7 +117,7 @@ VF_SUB(pedersen_vss, 90, 2000) {
     if (e.i == dealer) ret[e.i] = vss[e.i]->Share(sigma.get_mpz_t(), e.aiou, e.rbc, e.err, F.kind[e.i] == F_LIBSWITCH); else ret[e.i] = vss[e.i]->Share(dealer, e.aiou, e.rbc, e.err, F.kind[e.i] == F_LIBSWITCH);
     e.rbc->unsetID(); cl.barrier(e, 1);
     e.rbc->setID("c15-vss-reconstruct"); Z s = 42; rret[e.i] = vss[e.i]->Reconstruct(dealer, s.get_mpz_t(), e.rbc, e.err); rec[e.i] = s; e.rbc->unsetID(); });
-  ctx.desc << d.str() << " vtime=" << vf::vnow; ctx.label("n=" + std::to_string(n)); ctx.label(F.count ? "with-faults" : "fault-free"); for (size_t z = 0; z < n; z++) if (F.kind[z]) ctx.label(std::string("fault:") + (F.kind[z] == F_SILENT ? "silent" : F.kind[z] == F_LIBSWITCH ? "library-switch" : F.kind[z] == F_FALSE_COMPLAINT ? "false-complaint" : "wrong-share")); ctx.label(honest(F, dealer) ? "honest-dealer" : "faulty-dealer");
+  ctx.desc << d.str() << " vtime=" << vf::vnow; ctx.label("n=" + std::to_string(n)); ctx.label(F.count ? "with-faults" : "fault-free"); for (size_t z = 0; z < n; z++) if (F.kind[z]) ctx.label(std::string("fault:") + (F.kind[z] == F_SILENT ? "silent" : F.kind[z] == F_LIBSWITCH ? "library-switch" : F.kind[z] == F_FALSE_COMPLAINT ? "false-complaint" : F.kind[z] == F_BAD_BROADCAST ? "malformed-broadcast" : "wrong-share")); ctx.label(honest(F, dealer) ? "honest-dealer" : "faulty-dealer");
   if (F.count >= 1 || n >= 4) ctx.nontrivial(d.str() + std::to_string(cl.bc.sent));
   if (!simok) ctx.fail("sharing/pedersen_vss/simulation-deadlock-or-time-budget", d.str() + cl.task_errors());
   std::vector<size_t> H; for (size_t i = 0; i < n; i++) if (honest(F, i)) H.push_back(i);
@@ -135,7 +144,7 @@ VF_SUB(pedersen_vss, 90, 2000) {
 VF_SUB(cgjkr_dkg_refresh, 60, 1500) {
   Grp G = pick_grp(ctx); size_t n = (size_t)ctx.c.range(4, 5);
   bool with_faults = ctx.c.prob(3, 5) && n >= 4; size_t tmax = (n - 1) / 3, t = (size_t)ctx.c.range(1, tmax); // the broadcast layer needs n > 3t
-  Faults F = with_faults ? pick_faults(ctx, n, t, t) : pick_faults(ctx, n, 0);
+  Faults F = with_faults ? pick_faults(ctx, n, t, t) : pick_faults(ctx, n, 0); F.p = G.p;
   std::vector<bool> present(n, true); for (size_t i = 0; i < n; i++) if (F.kind[i] == F_SILENT) present[i] = false;
   Cluster cl(n, t, present); install_tap(cl, F);
   std::vector<CanettiGennaroJareckiKrawczykRabinDKG *> dkg(n, nullptr); std::vector<bool> ret(n, false), rret(n, false); std::vector<Z> x_before(n), y_before(n); std::vector<std::vector<size_t> > qual_before(n);
@@ -145,7 +154,7 @@ VF_SUB(cgjkr_dkg_refresh, 60, 1500) {
     e.rbc->setID("c15-cgjkr-generate"); ret[e.i] = dkg[e.i]->Generate(e.aiou, e.rbc, e.err, F.kind[e.i] == F_LIBSWITCH); e.rbc->unsetID();
     x_before[e.i] = Z(dkg[e.i]->x_i); y_before[e.i] = Z(dkg[e.i]->y); qual_before[e.i] = dkg[e.i]->QUAL; cl.barrier(e, 1);
     e.rbc->setID("c15-cgjkr-refresh"); rret[e.i] = dkg[e.i]->Refresh(n, e.i, e.aiou, e.rbc, e.err, F.kind[e.i] == F_LIBSWITCH); e.rbc->unsetID(); });
-  ctx.desc << d.str() << " vtime=" << vf::vnow; ctx.label("n=" + std::to_string(n)); ctx.label(F.count ? "with-faults" : "fault-free"); for (size_t z = 0; z < n; z++) if (F.kind[z]) ctx.label(std::string("fault:") + (F.kind[z] == F_SILENT ? "silent" : F.kind[z] == F_LIBSWITCH ? "library-switch" : F.kind[z] == F_FALSE_COMPLAINT ? "false-complaint" : "wrong-share"));
+  ctx.desc << d.str() << " vtime=" << vf::vnow; ctx.label("n=" + std::to_string(n)); ctx.label(F.count ? "with-faults" : "fault-free"); for (size_t z = 0; z < n; z++) if (F.kind[z]) ctx.label(std::string("fault:") + (F.kind[z] == F_SILENT ? "silent" : F.kind[z] == F_LIBSWITCH ? "library-switch" : F.kind[z] == F_FALSE_COMPLAINT ? "false-complaint" : F.kind[z] == F_BAD_BROADCAST ? "malformed-broadcast" : "wrong-share"));
   if (F.count >= 1 || n >= 4) ctx.nontrivial(d.str() + std::to_string(cl.bc.sent));
   if (!simok) ctx.fail("sharing/cgjkr_dkg/simulation-deadlock-or-time-budget", d.str() + cl.task_errors());
   std::vector<size_t> H; for (size_t i = 0; i < n; i++) if (honest(F, i)) H.push_back(i);
